@@ -6,6 +6,7 @@ import CookModel.Lemmas.StdMetaPairs
 import CookModel.Lemmas.StdMetaCoupling
 import CookModel.Lemmas.StdMetaMap
 import CookModel.Side.StdMetaBuilt
+import CookModel.Lemmas.BuilderSound
 /-
   C13  Standard metadata values are interpreted as documented.
 
@@ -316,7 +317,25 @@ theorem C13_bundled_converter :
     simp only [ht, Bool.not_true, Bool.false_or, decide_eq_true_eq] at this
     exact this
 
+/-- EVERY converter the builder can produce (not only the bundled one): for every stack of units files for which the
+    builder model (C16) succeeds and in which no ratio is zero (`Bld.ratiosNonzero`, decidable: no declared unit has
+    ratio 0, no extend entry sets a ratio to 0), the resulting converter, seen as `src/metadata.rs` sees it
+    (`convOfBuilt`), satisfies `TimeRatiosNonzero`; so all time theorems above apply to it — converters with translated
+    or renamed time units, extra units, SI-expanded seconds included.  (The premise is needed: with a zero-ratio time
+    unit `convert_f64` returns the value unchanged for the unit itself, which is not the conversion formula.) -/
+theorem C13_built_converter (files : List (Bld.UnitsFile Rat)) (conv : Bld.Converter Rat)
+    (h : Bld.build files = .ok conv) (hr : Bld.ratiosNonzero files = true) :
+    TimeRatiosNonzero (convOfBuilt conv) := by
+  intro u hu _
+  simp only [convOfBuilt, List.mem_map] at hu
+  obtain ⟨bu, hbu, rfl⟩ := hu
+  exact (Bld.bs_build Bld.prefixClosed_ne_zero files conv h (Bld.ratiosNonzero_fileG files hr) bu hbu).1
+
 /-! ### non-vacuity -/
+
+-- the premise of `C13_built_converter` holds of the shipped units file
+example : Bld.ratiosNonzero [Gen.shippedFile] = true := by decide +kernel
+
 
 example : commonTime ['1', 'h', '3', '0', 'm'] = some 90 := by decide +kernel
 example : commonTime ['7', '1', '5', '8', '2', '7', '8', '8', 'h', '1', '5', 'm'] = some 4294967295 := by decide +kernel
